@@ -1191,7 +1191,12 @@ func (s *Session) makeInterface(st *State, v Val, from, to types.Type) Val {
 		}
 		payload = loc.Ref
 	}
-	h := s.uf("mkiface", SInt, tag, payload)
+	hu := s.uf("mkiface", SInt, tag, payload)
+	h := hu
+	if s.noDefine == 0 {
+		h = s.fresh("iface", SInt)
+		s.assume(Eq(h, hu))
+	}
 	s.ifaceOrigin[h.S] = ifaceOrg{typ: from, val: v}
 	s.assume(Gt(h, I(0)))
 	s.assume(Eq(s.uf("typeof", SInt, h), tag))
